@@ -34,16 +34,19 @@ CHECKS = {
         note=BASE_TB + RT + "translator trusted and validated; binary64 rounding outside the theorems; multivariate Gaussian optimal<=fixed / split inequality unproved.",
         ref="DESIGN.md section 4 / C06"),
     "C02": dict(
-        technique="Coq proof (induction/invariants over the PELT loop, unbounded n) + model-vs-code correspondence with a verified checker",
+        technique="Coq proof (induction/invariants over the PELT loop, unbounded n; over Z and over the reals, end-to-end for the built-in squared-error and Gaussian costs) + model-vs-code correspondence with a verified checker on integer tables and bit-exact on binary64 tables",
         text="Theorems in coq/Properties/C02.v: for ANY cost function satisfying the split inequality, any n >= 2m, pen >= 0, the model of "
              "run_pelt returns an admissible segmentation minimising the penalised cost over all admissible segmentations, every prefix score is "
              "the optimal value F(t) (F proved equal to the min over segmentations), final score = cost of the output; refutation of the "
              "originally pinned immediate pruning. The hand-written model is tied to pelt.py on every run by exact equality of predict / "
              "transform_scores on integer table costs driven through the real PELT class, and the implementation's own output is re-checked "
-             "by a Coq checker proved sound (C02_checker_sound).",
-        note=BASE_TB + "Model/Pelt.v is hand-written (modelled, not verified: the NumPy array plumbing of run_pelt, BaseCost.evaluate, "
-             "check_data). No axioms: every theorem is 'Closed under the global context'. Float rounding of real costs is outside the theorem "
-             "(costs enter as exact values).",
+             "by a Coq checker proved sound (C02_checker_sound). The same theorems are proved for REAL-valued costs (Model/PeltR.v, tied to the integer model by "
+             "the embedding theorem C02_real_model_extends_integer_model), and with the kernels regenerated from the source the split hypothesis is discharged: "
+             "PELT on the squared-error cost (one or several columns) and on the Gaussian variance cost (all admissible segments above the variance floor) returns an exact "
+             "minimiser (C02_builtin_*_end_to_end). " + "The same search loop is also defined over an arbitrary number type (Model/Generic.v): its Z instance is proved equal to this model and its binary64 instance (Coq primitive floats) is executed on the float score tables of the REAL built-in scorers and must reproduce the real detector bit for bit; a glue stream compares repeated index labels, shared column labels, large int64 data, permuted columns, the no-detection format, caller-data mutation and aliasing of earlier results against the plain float64 array. ",
+        note=BASE_TB + RT + "PrimFloat (binary64 add / comparisons) in the float-table checker only. Model/Pelt.v is hand-written (modelled, not verified: the NumPy array plumbing of run_pelt, BaseCost.evaluate, "
+             "check_data). The theorems over Z are 'Closed under the global context'; those over R use the real-number axioms listed above. Float rounding of real costs is "
+             "outside the optimality theorem (costs enter as exact values); the binary64 stream ties the loop, not the optimality.",
         ref="DESIGN.md section 4 / C02"),
     "C03": dict(
         technique="Coq proof (DP invariants with delayed pruning, best-subset exchange lemma; unbounded n, p) + model-vs-code correspondence with a verified checker",
@@ -52,8 +55,10 @@ CHECKS = {
              "optimum G(t) w.r.t. the true best-subset penalised saving (Pbest proved = max over non-empty component sets); re-evaluation = final score; "
              "ignore_point_anomalies drops exactly the points; scores non-negative and non-decreasing; refutation of the pinned immediate pruning. Tie: "
              "equality of predict / transform_scores with the real CAPA and MVCAPA on integer table savings (both ignore settings), and a sound Coq checker "
-             "re-checks the implementation's own output.",
-        note=BASE_TB + "Model/Capa.v is hand-written. The penalty callables/assigned penalties are inputs (C15 covers their formulas). No axioms.",
+             "re-checks the implementation's own output. The hypotheses are discharged for the built-in L2 saving (non-negative, sub-additive) and for every cost-derived saving "
+             "whose optimised cost satisfies the split inequality (C03_builtin_*, C03_cost_derived_savings_subadditive; over the reals, on the regenerated kernels). A glue stream compares "
+             "repeated index labels, shared column labels, large int64 data, permuted columns, the no-detection format, caller-data mutation and aliasing against the plain array.",
+        note=BASE_TB + RT + "Model/Capa.v is hand-written. The penalty callables/assigned penalties are inputs (C15 covers their formulas). The optimality theorems are closed; the three saving lemmas are over R.",
         ref="DESIGN.md section 4 / C03"),
     "C07": dict(
         technique="Coq proof (greedy-loop invariants, interval arithmetic; unbounded n) + model-vs-code correspondence with direct spec checkers",
@@ -61,25 +66,25 @@ CHECKS = {
              "postconditions); per-interval score/maximiser = max/first argmax over admissible splits; every changepoint supported by an above-threshold interval "
              "containing it; no above-threshold interval left without a changepoint; changepoints >= m apart and from the ends; raising the threshold only removes "
              "changepoints; totality. Tie: exact equality of predict and the scores table with the real SeededBinarySegmentation on integer change scores, plus the "
-             "property clauses checked directly on the implementation's output inside Coq, plus implementation-level threshold monotonicity.",
+             "property clauses checked directly on the implementation's output inside Coq, plus implementation-level threshold monotonicity. " + "The same search loop is also defined over an arbitrary number type (Model/Generic.v): its Z instance is proved equal to this model and its binary64 instance (Coq primitive floats) is executed on the float score tables of the REAL built-in scorers and must reproduce the real detector bit for bit; a glue stream compares repeated index labels, shared column labels, large int64 data, permuted columns, the no-detection format, caller-data mutation and aliasing of earlier results against the plain float64 array. ",
         note=BASE_TB + "Model/Sbs.v hand-written; the floating-point front end of make_seeded_intervals (geomspace/round/log) is an ORACLE recomputed by the harness "
-             "with the library's NumPy expressions (validated on every configuration, not proved). No axioms.",
+             "with the library's NumPy expressions (validated on every configuration, not proved). No axioms; PrimFloat (binary64) in the float-table checker only.",
         ref="DESIGN.md section 4 / C07"),
     "C08": dict(
         technique="Coq proof (run/peak characterisation by induction over the score list) + model-vs-code correspondence",
         text="Theorems in coq/Properties/C08.v: score at t = change score of (t-b, t, t+b) on [b, n-b], 0 elsewhere; `where` = exactly the maximal runs; changepoints = "
              "first maxima of maximal above-threshold runs of length >= min_detection_interval; sorted; in [b, n-b] for thr >= 0; time reversal maps scores at t to n-t; "
              "refutation of the pinned one-short left window. Tie: exact equality of transform_scores / predict with the real MovingWindow on integer change scores and "
-             "an implementation-level reversal run.",
-        note=BASE_TB + "Model/Mw.v hand-written. No axioms.",
+             "an implementation-level reversal run. " + "The same search loop is also defined over an arbitrary number type (Model/Generic.v): its Z instance is proved equal to this model and its binary64 instance (Coq primitive floats) is executed on the float score tables of the REAL built-in scorers and must reproduce the real detector bit for bit; a glue stream compares repeated index labels, shared column labels, large int64 data, permuted columns, the no-detection format, caller-data mutation and aliasing of earlier results against the plain float64 array. ",
+        note=BASE_TB + "Model/Mw.v hand-written. No axioms; PrimFloat (binary64) in the float-table checker only. Thresholds >= 0 (a tuned threshold below zero is handled by the code since fix D25a and is exercised by C04 / C14).",
         ref="DESIGN.md section 4 / C08"),
     "C09": dict(
         technique="Coq proof (greedy-loop invariants, candidate-set characterisation) + model-vs-code correspondence with direct spec checkers",
         text="Theorems in coq/Properties/C09.v: inner candidates = exactly the intervals strictly inside with length >= m and >= m surrounding samples; per-interval score = max "
              "over them; anomalies sorted, disjoint, length >= m, strictly inside the data; picks supported / complete / threshold-monotone; totality; m=1 length-2 intervals "
              "have no candidate (pinned crash). Tie: exact equality of predict and the scores table (incl. argmax columns) with the real CircularBinarySegmentation on integer "
-             "local anomaly scores; clauses re-checked on the implementation's output in Coq.",
-        note=BASE_TB + "Model/Cbs.v hand-written; candidate intervals share the SBS float front-end oracle. No axioms.",
+             "local anomaly scores; clauses re-checked on the implementation's output in Coq. " + "The same search loop is also defined over an arbitrary number type (Model/Generic.v): its Z instance is proved equal to this model and its binary64 instance (Coq primitive floats) is executed on the float score tables of the REAL built-in scorers and must reproduce the real detector bit for bit; a glue stream compares repeated index labels, shared column labels, large int64 data, permuted columns, the no-detection format, caller-data mutation and aliasing of earlier results against the plain float64 array. ",
+        note=BASE_TB + "Model/Cbs.v hand-written; candidate intervals share the SBS float front-end oracle. No axioms; PrimFloat (binary64) in the float-table checker only.",
         ref="DESIGN.md section 4 / C09"),
     "C04": dict(
         technique="Coq proof (well-formedness corollaries of the search-loop invariants, for arbitrary score functions) + verified checkers applied to the real detectors' outputs",
